@@ -161,6 +161,7 @@ def narrowing_items():
 
 
 def run(ctx):
+    C.config_matrix(ctx["report"], ctx["rundir"], "C10", ["nosuchfn(1)", "Total(1, 2); total(1, 2)", "mdegC(3)", "kdegF(1, 2)", "sin(1, zz: 2)", "max(1, 2)", "(1/2)!", "C(5, 0.1*3*10)", "sqrt(4)", "vline(1, weight: \"a\")", "1 + \"a\""])
     # which implementation runs depends on the kinds of THIS call's arguments only: not on what ran before at the same place
     C.seam_check(ctx["report"], ctx["rundir"], "C10",
                  templates=[("%s / 2", ["0.5", "3", "1/2", "3!"]), ("%s / 2", ["3", "0.5"]), ("%s == 1", ['"a"', "1", "1.0", "{1}"]), ("%s + 1", ["1", "1/2", "0.5", "1 m", "#2020-01-01#", "[1,2]"]),
